@@ -65,7 +65,12 @@ class LxmlEventHandler(XmlHandler):
         Returns:
             An instance of the class type representing the parsed content.
         """
+        ended = None
         for event, element in context:
+            if ended is not None:
+                self.end_element(ended)
+                ended = None
+
             if event == EventType.START:
                 self.parser.start(
                     self.clazz,
@@ -76,18 +81,14 @@ class LxmlEventHandler(XmlHandler):
                     element.nsmap,
                 )
             elif event == EventType.END:
-                self.parser.end(
-                    self.queue,
-                    self.objects,
-                    element.tag,
-                    element.text,
-                    element.tail,
-                )
-                element.clear()
+                ended = element
             elif event == EventType.START_NS:
                 prefix, uri = element
                 self.parser.register_namespace(ns_map, prefix or None, uri)
             else:
                 raise XmlHandlerError(f"Unhandled event: `{event}`.")
+
+        if ended is not None:
+            self.end_element(ended)
 
         return self.objects[-1][1] if self.objects else None
